@@ -1,6 +1,8 @@
 # -*- coding: utf-8 -*-
 """C04 - loading a dataset reproduces its files under every supported layout."""
 
+import os
+
 import numpy as np
 from hypothesis import strategies as st
 
@@ -33,7 +35,8 @@ ASSUMPTIONS = ['datasets with >=2 spikes/templates/channels/samples (squeeze deg
 def _case(draw):
     spec = draw(D.dataset_spec(nan=True, probe_labels=True))
     reads = [[draw(st.integers(0, spec['n_raw'] - 1)), draw(st.integers(1, 12))] for _ in range(3)]
-    return {'spec': spec, 'nonmono': draw(st.integers(0, 4)) == 0, 'reads': reads}
+    return {'spec': spec, 'nonmono': draw(st.integers(0, 4)) == 0, 'reads': reads,
+            'decoy': draw(st.booleans())}
 
 
 def drivers(tier):
@@ -71,7 +74,22 @@ def check(case):
             info['nonmono'] = True
         T = D.build(spec, d / 'ds')
         before = D.sha_dir(T.dir)
-        m = D.load(T, must_return)
+        cwd = os.getcwd()
+        if T.raw is not None and case.get('decoy'):
+            # another session's folder with equally named raw files is the current directory
+            decoy = d / 'other_session'
+            decoy.mkdir()
+            for name in T.params['dat_path']:
+                src = (T.dir / name).read_bytes()
+                (decoy / name).write_bytes(bytes((b + 1) % 256 for b in src))
+                if name.endswith('.cbin'):
+                    (decoy / name).with_suffix('.ch').write_bytes(
+                        (T.dir / name).with_suffix('.ch').read_bytes())
+            os.chdir(str(decoy))
+        try:
+            m = D.load(T, must_return)
+        finally:
+            os.chdir(cwd)
         try:
             ns, nt, nc = spec['ns'], spec['nt'], spec['nc']
             require((m.n_spikes, m.n_templates, m.n_channels) == (ns, nt, nc), 'sizes',
